@@ -466,7 +466,9 @@ func (p *sshFxpStatResponse) MarshalBinary() ([]byte, error) {
 var emptyFileStat = []any{uint32(0)}
 
 func (p *sshFxpOpenPacket) readonly() bool {
-	return !p.hasPflags(sshFxfWrite)
+	// Besides opening for writing, creating and truncating modify the file
+	// system as well, even when the file is only opened for reading.
+	return p.Pflags&(sshFxfWrite|sshFxfAppend|sshFxfCreat|sshFxfTrunc) == 0
 }
 
 func (p *sshFxpOpenPacket) hasPflags(flags ...uint32) bool {
